@@ -9,7 +9,7 @@ CLAIMED = {
          "4 000 valid + 8 000 broken declarations in-process (quick; 150 000 + 300 000 thorough): both front ends succeed with token-identical output whose tables equal the declaration plus Crc32/Void/RawTag; attribute order per variant (all 6 orders of id / data_type / doc_path) and variant order are generated too; each of 14 kinds of broken declaration is rejected. 1 (quick) / 8 (thorough) batches of 24 declarations are compiled through #[ebml_specification] and easy_ebml! and every trait function is checked for declared and probe ids, every accessor, raw tags, and iterator/writer use; 2 / 6 crates with an unknown attribute on a variant must fail to compile.",
          "trusted: syn parse of the generated code; the declaration table emitted next to each compiled declaration; rustc", "4.18"),
  "C20": ("exhaustive enumeration of every partition of small inputs + proptest over (input, async read partition, Poll::Pending pattern, buffered set) with a harness-owned scripted AsyncRead on block_on; differential oracle against the blocking iterator; libFuzzer on the same stage (thorough)",
-         "every composition (2^(n-1) partitions) of 80 (quick) / 250 (thorough) small documents of up to 12 / 15 bytes, with and without Pending polls and buffered masters, plus 320 000 (quick) / 2 M (thorough) random partitions of generated, mutated and adversarial inputs (1-byte reads, reads that end inside ids, sizes and payloads, 1 in 12 inputs larger than the 64 KiB transfer buffer, all buffered sets), plus the two pinned inputs of the repaired defect D14: items, offsets, first error and termination (None exactly once, and again afterwards) must equal the blocking iterator over the whole slice; next() and into_stream() both driven.",
+         "every composition (2^(n-1) partitions) of 80 (quick) / 250 (thorough) small documents of up to 12 / 15 bytes, with and without Pending polls and buffered masters, plus 320 000 (quick) / 2 M (thorough) random partitions of generated, mutated and adversarial inputs (1-byte reads, reads that end inside ids, sizes and payloads, 1 in 12 inputs larger than the 64 KiB transfer buffer, all buffered sets), plus the two pinned inputs of the repaired defect D14: items, offsets, errors (both iterators are driven past up to three undecodable payloads) and termination (None exactly once, and again afterwards) must equal the blocking iterator over the whole slice; next() and into_stream() both driven.",
          "trusted: the blocking iterator as reference (anchored by C01/C03/C04/C12); single-threaded harness-owned polling, real executors' timing is out of scope; behaviour after a source I/O error is outside the statement", "4.20"),
  "C02": ("proptest over accepted byte streams (canonical, non-canonical reference encodings, structure-aware and blind mutations); fixpoint oracle read(write(read(b))) == read(b)",
          "800 000 (quick) / 4 M (thorough) generated streams; those the strict reader accepts from a root element (acceptance rate of mutated streams measured, gate >= 10%) are re-written item by item through TagWriter::write (every call must be Ok) and re-read; the two item sequences must be identical (floats by bits). In a third of the cases the stream is also read with a generated set of buffered masters and those Full items are handed back to the writer: the re-read must again equal the first (unbuffered) reading.",
@@ -33,7 +33,7 @@ CLAIMED = {
          "48 000 (quick) / 250 000 (thorough) specifications, 5 chains each (instantiated from declared paths with boundary counts per placeholder, edited, random; unreachable chains opened through the unknown-size option), every element offered at every chain prefix, on the writer side with a whole Full master (acceptable or refused) written before the offers now and then, so that a verdict depending on history shows: ~12 M writer/reader decisions per quick run, confusion matrix in the evidence (disagreement cells must be 0).",
          "trusted: ref_match (cross-checked against a brute-force enumerator in unit tests over 500 000 path/chain pairs), ref_closes; ambiguous (chain, tag) triples skipped and counted", "4.11"),
  "C19": ("model-based proptest: valid call sequence with 1-3 contract-failing calls inserted; differential oracle against the run without the failing calls",
-         "480 000 (quick) / 2 M (thorough) sequences with failing calls (plus 160 000 / 800 000 cases of a master End rejected for its width: the master must stay open and unchanged) of every documented kind (tag not allowed, size not representable for a leaf or for a Full master, unknown size on a non-master through both calls, malformed raw id, End of a master that is not the innermost, Full master with an invalid child / a stray End child / a child master left open) inserted at generated positions; the failing call must return a non-I/O error, every other call must behave as in the reference run, the destination must stay a prefix of W(V) after every call and the final bytes must be identical.",
+         "480 000 (quick) / 2 M (thorough) sequences with failing calls (plus 160 000 / 800 000 cases of a master End rejected for its width: the master must stay open and unchanged) of every documented kind (tag not allowed, size not representable for a leaf or for a Full master, unknown size on a non-master through both calls, malformed raw id, End of a master that is not the innermost, Full master with an invalid child / a stray End child / a child master left open) inserted at generated positions; the failing call must return a non-I/O error, every other call must behave as in the reference run, the destination must stay a prefix of W(V) after every call and the final bytes must be identical. Third stage (320 000 / 1.5 M): arbitrary calls — any element as Start / End / Full with arbitrary children, any option, both unknown-size calls, write_raw — are mixed into a valid sequence; each refused call is removed in turn and the run repeated: every later verdict, the destination after every later call, the flush result and the final bytes must be the same (the statement as a metamorphic relation, no knowledge of which calls must fail).",
          "trusted: ref_match to construct calls that must fail; the destination never fails", "4.19"),
  "C03": ("proptest over the reader input mix × tolerance × buffered set × capacity; oracle = reference header parser + reference payload decoders at the reported offsets (validity predicate + tiling invariant)",
          "960 000 (quick) / 5 M (thorough) inputs (valid, non-canonical, mutated, random, adversarial, mid-document) are read under random configurations (a third of them through short reads of 1-61 bytes); for every successful item up to the first error the id at the reported offset, the decoded value, the tiling of consecutive tags (inside Full items too) and the offsets of End/Full items are checked against the input bytes with an independent header parser and decoders.",
@@ -57,13 +57,13 @@ CLAIMED = {
          "For each of 80 000 (quick) / 500 000 (thorough) generated forests with at most 8 master instances every subset of them is encoded with unknown size (real writer: 8-byte marker; reference encoder: all-ones in width 1-8) and the strict reading — and the reading under one generated non-empty set of tolerated error classes — must equal flatten(forest) including the position of every End; 64 sampled subsets beyond 8 masters. Exhaustive over subsets per document, sampled over documents/specifications.",
          "trusted: reference encoder, generator-side flatten(); ref_closes() decides which subsets are ambiguous and therefore skipped (counted)", "4.7"),
  "C12": ("proptest-generated documents × exhaustive enumeration of every cut position; oracle = layout of the independent reference encoder",
-         "Every byte position of each of 32 000 (quick) / 200 000 (thorough) generated documents (canonical and non-canonical encodings, known/unknown sizes, 1-8 byte ids) is used as truncation point under a slice source, 1-byte reads or pseudo-random chunking and several capacities; expected prefix, closing Ends and every field of the UnexpectedEOF error are computed from the encoder's layout, never from the reader. Exhaustive over cuts per document, sampled over documents.",
+         "Every byte position of each of 32 000 (quick) / 200 000 (thorough) generated documents (canonical and non-canonical encodings, known/unknown sizes, 1-8 byte ids) is used as truncation point under a slice source, 1-byte reads or pseudo-random chunking and several capacities; expected prefix, closing Ends and every field of the UnexpectedEOF error are computed from the encoder's layout, never from the reader. Exhaustive over cuts per document, sampled over documents. Second stage: 1 500 (quick) / 12 000 (thorough) documents with one payload of 65-145 KB (beyond the 64 KiB default buffer), ~27 sampled cuts each (element ends, multiples of 64 KiB inside the payload, random).",
          "trusted: reference encoder layout; Ends between the last complete tag and the incomplete one are optional (the statement does not fix them)", "4.12"),
  "C15": ("exhaustive enumeration of short values/slices + boundary lattice + proptest random values against an independent u128/i128 vint codec",
          "Every value below 2^23 (quick) / 2^28 (thorough) in all nine encoder variants and through every implementation of the Vint trait (u64, u32, u16, u8) that can hold the value, |v| < 2^22 / 2^27 signed, every byte slice of length <= 3, every id candidate below 2^24, a lattice around every power-of-two boundary, and random 64-bit values are compared with a reference codec written from RFC 8794. Exhaustive inside those bounds, sampled outside; the functions are pure so there is no state to miss.",
          "trusted: the reference codec in harness/core/src/refmodel.rs (unit-tested against the crate's documented examples); widths 1..8 only", "4.15"),
  "C16": ("exhaustive enumeration of slices <= 2-3 bytes + bit lattice + proptest random slices / written values against from_be_bytes reference decoders",
-         "All slices of length <= 3, a bit lattice for lengths 3..16 and random slices of 0..16 bytes are decoded by arr_to_u64/i64/f64 and by reference decoders; boundary and random u64/i64/f64 values are written through TagWriter, the payload located with the reference header parser, its width checked against the minimal 1/2/4/8 rule and decoded by library, reference and iterator.",
+         "All slices of length <= 3, a bit lattice for lengths 3..16 and random slices of 0..16 bytes are decoded by arr_to_u64/i64/f64 and by reference decoders; boundary and random u64/i64/f64 values are written through TagWriter — with default options and with every explicit size-field width 1-8 —, the payload located with the reference header parser, its width checked against the minimal 1/2/4/8 rule and decoded by library, reference and iterator.",
          "trusted: reference decoders (from_be_bytes based) and reference header parser", "4.16"),
 }
 TODO_REASON = "not claimed"
